@@ -5,7 +5,7 @@ EXTENDS RailsPipeline, Json, IOUtils
 
 CONSTANTS Family, MaxIn, MaxOut, MaxTurns, Part, Parts
 
-Vecs(n, Vs) == {v \in [1..n -> Vs] : \A k \in 1..n : v[k] \in {"R", "F"} => \A q \in (k + 1)..n : v[q] = "A"}
+Vecs(n, Vs) == {v \in [1..n -> Vs] : \A k \in 1..n : v[k] \in {"R", "F", "G"} => \A q \in (k + 1)..n : v[q] = "A"}
 AllA(n) == [k \in 1..n |-> "A"]
 SeqsBetween(S, lo, hi) == UNION {[1..n -> S] : n \in lo..hi}
 Sub(s) == [input |-> "i" \in s, dialog |-> "d" \in s, retrieval |-> "r" \in s, output |-> "o" \in s, set |-> TRUE]
@@ -16,7 +16,7 @@ CfgRecR(ni, no, d, x, sh, nr) == CfgRecP(ni, no, d, x, sh, nr, FALSE)
 CfgRec(ni, no, d, x, sh) == CfgRecR(ni, no, d, x, sh, 0)
 Kinds(d) == IF d THEN {"pre", "llm", "free"} ELSE {"llm"}
 Kinds2(d) == IF d THEN {"pre", "llm"} ELSE {"llm"}
-NFaults(ts) == LET F(v) == Cardinality({k \in DOMAIN v : v[k] = "F"}) IN
+NFaults(ts) == LET F(v) == Cardinality({k \in DOMAIN v : v[k] \in {"F", "G"}}) IN
                IF Len(ts) = 0 THEN 0 ELSE
                LET RECURSIVE Sum(_) Sum(k) == IF k = 0 THEN 0 ELSE F(ts[k].inv) + F(ts[k].outv) + Sum(k - 1) IN Sum(Len(ts))
 
@@ -44,7 +44,7 @@ Scripts ==
                 : ni \in {0, 1}, no \in 1..MaxOut, d \in BOOLEAN, x \in BOOLEAN}
     [] Family = "c03" ->
          UNION {{s \in ScriptsFor(CfgRec(ni, no, TRUE, x, sh),
-                           {TurnRec("llm", iv, ov, NONE, FALSE) : iv \in Vecs(ni, {"A", "R", "F"}), ov \in Vecs(no, {"A", "R", "F"})},
+                           {TurnRec("llm", iv, ov, NONE, FALSE) : iv \in Vecs(ni, {"A", "R", "F", "G"}), ov \in Vecs(no, {"A", "R", "F", "G"})},
                            2, MaxTurns) : NFaults(s.turns) \in 1..2}
                 : ni \in 1..MaxIn, no \in 1..MaxOut, x \in BOOLEAN, sh \in {"check", "inv"}}
     [] Family = "c16" ->
